@@ -21,7 +21,7 @@ EXPLANATION = (
     "randint(low=start, high=stop+1), i.e. exactly [start, stop], and both constructors leave a permutation of the "
     "declared bounds with start <= stop (needed by randint); ComplexRectangle = re + im*1j and ComplexSector = "
     "modulus*exp(1j*argument) from RealIntervals built from the right configuration keys; DiscreteSet / "
-    "SpecificFunctions return random.choice(self.config). (D2) RandomFunction: arity check raising ConfigError, "
+    "SpecificFunctions return random.choice(self.config); the number type of a range validates both endpoints in the dictionary and the list spelling. (D2) RandomFunction: arity check raising ConfigError, "
     "nin = input_dim, output MathArray of length output_dim iff output_dim > 1, coefficients drawn once outside the "
     "returned function, and the magnitude domain (entrywise bound, np.sum multiplies by the summed axis length, "
     "range-exact flags) proves |f - center| <= amplitude, i.e. the divisor equals the number num_terms*input_dim of "
@@ -49,6 +49,7 @@ def check(ctx):
     idx = ctx.index
     ai.reset_budget()
     d1_intervals(ctx, idx)
+    d1_types(ctx, idx)
     d1_complex(ctx, idx)
     d1_choice(ctx, idx)
     d2_random_function(ctx, idx)
@@ -297,6 +298,123 @@ def _int_scaled_uniform(r, construct, v, where, ordered):
                 'e.g. IntegerRange(start=2, stop=4) yields %s..%s%s' % (lo.text(), hi.text(), C.text(), (C + B).text(), eg(lo), eg(hi),
                                                                       ('. ' + missing[0]) if missing else ''),
                 where, expected='start + int((stop - start + 1) * random_sample())  /  randint(start, stop + 1)', found=ai.show(v))
+
+
+def _module_value_term(idx, anyfi, t):
+    """('ext', 'pkg.mod.NAME') of a module-level binding -> the term of the bound value (or t itself)."""
+    if t[0] != 'ext' or '.' not in t[1]:
+        return t
+    modname, name = t[1].rsplit('.', 1)
+    mod = idx.modules.get(modname)
+    if mod is None or len(mod.assigns.get(name, [])) != 1:
+        return t
+    holder = next((f for f in mod.all_funcs), None)
+    if holder is None:
+        return t
+    return ai.TermBuilder(idx, holder).build(mod.assigns[name][0], {})
+
+
+def d1_types(ctx, idx):
+    """IntegerRange draws with randint(low=start, high=stop+1): its endpoints must be validated as ints in EVERY accepted
+    spelling of the range ({'start':..,'stop':..} / keyword arguments, and the list [start, stop]); with a float endpoint
+    randint truncates and the samples leave the declared interval.  Checked symbolically: the number_type handed to
+    NumberRange must be the validator of both dictionary entries and of both list entries."""
+    r = ctx.rule('D1.TYPES', 'the number type of a range (int for IntegerRange) validates both endpoints in every accepted spelling', floor=4)
+    V = 'mitxgraders.helpers.validatorfuncs.'
+    T = ('sym', 'NUMBER_TYPE')
+    with r:
+        for cls, want in (('IntegerRange', 'int'), ('RealInterval', None)):
+            ci = idx.cls(S + cls)
+            holder, node = idx.lookup_attr(ci, 'schema_config')
+            ok = isinstance(node, ast.Call) and nf.callee_name(node) == 'NumberRange'
+            if not ok:
+                r.undecided('%s.schema_config' % cls, 'not a NumberRange(...) call', ci.loc)
+                continue
+            arg = node.args[0] if node.args else next((k.value for k in node.keywords if k.arg == 'number_type'), None)
+            if want is None:
+                continue
+            if isinstance(arg, ast.Name) and arg.id == want:
+                r.ok('%s.schema_config' % cls, 'NumberRange(int)', ci.loc)
+            elif arg is None or (isinstance(arg, ast.Name) and arg.id in ('float', 'Number')):
+                r.violation('%s.schema_config' % cls, 'the endpoints of the integer sampler are validated as `%s`, not int: IntegerRange(start=1.5, '
+                            'stop=3.5) is accepted and np.random.randint truncates the bounds, so samples (1, 2, 3) lie outside the declared '
+                            'interval' % (short(arg) if arg is not None else 'Number'), ci.loc, expected='NumberRange(int)')
+            else:
+                r.undecided('%s.schema_config' % cls, 'number type `%s` not recognised' % short(arg), ci.loc)
+        nr = idx.func(V + 'NumberRange')
+        if len(nr.params) != 1:
+            raise AnalysisError('NumberRange should take (number_type)')
+        try:
+            paths = ai.sym_exec(idx, nr, env={nr.params[0]: T})
+        except Unsupported as e:
+            raise AnalysisError('NumberRange: %s' % e)
+        if len(paths) != 1 or paths[0].kind != 'ret':
+            raise AnalysisError('NumberRange: expected a single return')
+        dicts = [t for t in ai.subterms(paths[0].value) if t[0] == 'dict']
+        entries = {}
+        for d in dicts:
+            for k, v in d[1]:
+                if k[0] == 'call' and k[1].split('.')[-1] in ('Required', 'Optional') and k[2] and k[2][0][0] == 'str':
+                    entries[k[2][0][1]] = v
+        for key in ('start', 'stop'):
+            construct = "NumberRange: {'%s': ...}" % key
+            if key not in entries:
+                r.undecided(construct, 'dictionary spelling has no entry for %r' % key, nr.loc)
+            else:
+                r.check(entries[key] == T, construct, 'validated as number_type',
+                        'the %r entry of the dictionary spelling is validated as `%s`, ignoring number_type: IntegerRange(%s=1.5) is accepted '
+                        'and randint truncates it' % (key, ai.show(entries[key]), key), nr.loc, expected='number_type', found=ai.show(entries[key]))
+        # the list spelling
+        alts = [t for t in ai.subterms(paths[0].value) if t[0] == 'call' and t[1].split('.')[-1] == 'number_range_alternate']
+        construct = 'NumberRange: [start, stop] spelling'
+        if len(alts) != 1:
+            r.undecided(construct, 'number_range_alternate(...) not found among the alternatives', nr.loc)
+            return
+        if alts[0][2] != (T,) and dict(alts[0][3]).get('number_type') != T:
+            r.violation(construct, 'number_range_alternate is built with `%s` instead of the number type of the range: the list spelling '
+                        'IntegerRange([1.5, 3.5]) is validated as plain numbers, randint truncates the bounds and the samples leave the declared '
+                        'interval' % (ai.show(alts[0][2][0]) if alts[0][2] else 'its default Number'), nr.loc, expected='number_range_alternate(number_type)')
+            return
+        alt = idx.func(V + 'number_range_alternate')
+        try:
+            ap = ai.sym_exec(idx, alt, env={alt.params[0]: T})
+            if len(ap) != 1 or ap[0].kind != 'ret' or ap[0].value[0] != 'closure':
+                raise Unsupported('number_range_alternate does not return a local validator function')
+            name = ap[0].value[1]
+            node, env, store = ap[0].closures[name]
+            inner = idx.func(alt.qualname + '.<locals>.' + name)
+            qs = [q for q in ai.sym_exec(idx, inner, stmts=node.body, env=env, store=store) if q.kind == 'ret']
+        except Unsupported as e:
+            r.undecided(construct, str(e), alt.loc)
+            return
+        if len(qs) != 1 or qs[0].value[0] != 'dict':
+            r.undecided(construct, 'the list validator does not return a dictionary literal', alt.loc)
+            return
+        got = {k[1]: v for k, v in qs[0].value[1] if k[0] == 'str'}
+        problems, validated = [], None
+        for key, pos in (('start', 0), ('stop', 1)):
+            v = got.get(key)
+            if v is None or v[0] != 'index' or v[2] != ai.num(pos):
+                r.undecided(construct, 'entry %r of the returned dictionary is `%s`' % (key, ai.show(v) if v else 'missing'), alt.loc)
+                return
+            src = v[1]
+            if not (src[0] == 'meth' and src[2] == '__call__' and len(src[3]) == 1):
+                r.violation(construct, 'the list entries are used without validation (`%s`)' % ai.show(src)[:80], alt.loc) if src[0] == 'param' \
+                    else r.undecided(construct, 'validated list `%s` not recognised' % ai.show(src)[:80], alt.loc)
+                return
+            validated = _module_value_term(idx, alt, src[1])
+        lists = [t for t in ai.subterms(validated) if t[0] == 'list']
+        if len(lists) != 1:
+            r.undecided(construct, 'schema of the list spelling `%s` not recognised' % ai.show(validated)[:80], alt.loc)
+            return
+        bad = [x for x in lists[0][1] if x != T]
+        if bad:
+            r.violation(construct, 'the entries of the list spelling are validated as `%s`, ignoring number_type: IntegerRange([1.5, 3.5]) is '
+                        'accepted although IntegerRange(start=1.5, stop=3.5) is refused; np.random.randint then truncates the bounds and draws '
+                        '1, 2, 3 - samples outside the declared interval [1.5, 3.5]' % ai.show(bad[0]), alt.loc,
+                        expected='[number_type, number_type]', found=ai.show(lists[0]))
+        else:
+            r.ok(construct, 'both list entries are validated as number_type and mapped to start / stop', alt.loc)
 
 
 # ----------------------------------------------------------------------------- D1 complex
@@ -774,6 +892,9 @@ _CACHE_NEW = '        self.norm = RealInterval(self.config[\'norm\'])\n        s
 _RF_BODY_OLD = '        C = 2 * np.pi * np.random.rand(output_dim, num_terms, input_dim)\n\n        def random_function(*args):\n            """Function that generates the random values"""\n            # Check that the dimensions are correct\n            if len(args) != input_dim:\n                msg = "Expected {} arguments, but received {}".format(input_dim, len(args))\n                raise ConfigError(msg)\n\n            # Turn the inputs into an array\n            xvec = np.array(args)\n            # Repeat it into the shape of A, B and C\n            xarray = np.tile(xvec, (output_dim, num_terms, 1))\n            # Compute the output matrix\n            output = A * np.sin(B * xarray + C)\n            # Sum over the j and k terms\n            # We have an old version of numpy going here, so we can\'t use\n            # fullsum = np.sum(output, axis=(1, 2))\n            fullsum = np.sum(np.sum(output, axis=2), axis=1)\n\n            # Scale and translate to fit within center and amplitude\n            # (num_terms * input_dim sinusoids of magnitude at most 1 were summed)\n            fullsum = fullsum * self.config["amplitude"] / (num_terms * input_dim)\n            fullsum += self.config["center"]\n'
 _RF_BODY_SHARED_BUFFER = '        C = 2 * np.pi * np.random.rand(output_dim, num_terms, input_dim)\n        result = np.zeros(output_dim, dtype=A.dtype)\n\n        def random_function(*args):\n            """Function that generates the random values"""\n            # Check that the dimensions are correct\n            if len(args) != input_dim:\n                msg = "Expected {} arguments, but received {}".format(input_dim, len(args))\n                raise ConfigError(msg)\n\n            # Turn the inputs into an array\n            xvec = np.array(args)\n            # Repeat it into the shape of A, B and C\n            xarray = np.tile(xvec, (output_dim, num_terms, 1))\n            # Compute the output matrix\n            output = A * np.sin(B * xarray + C)\n            # Sum over the j and k terms\n            # We have an old version of numpy going here, so we can\'t use\n            # fullsum = np.sum(output, axis=(1, 2))\n            fullsum = np.sum(np.sum(output, axis=2), axis=1, out=result)\n\n            # Scale and translate to fit within center and amplitude\n            # (num_terms * input_dim sinusoids of magnitude at most 1 were summed)\n            fullsum *= self.config["amplitude"]\n            fullsum /= num_terms * input_dim\n            fullsum += self.config["center"]\n'
 _RF_BODY_INPLACE_FRESH = '        C = 2 * np.pi * np.random.rand(output_dim, num_terms, input_dim)\n\n        def random_function(*args):\n            """Function that generates the random values"""\n            # Check that the dimensions are correct\n            if len(args) != input_dim:\n                msg = "Expected {} arguments, but received {}".format(input_dim, len(args))\n                raise ConfigError(msg)\n\n            # Turn the inputs into an array\n            xvec = np.array(args)\n            # Repeat it into the shape of A, B and C\n            xarray = np.tile(xvec, (output_dim, num_terms, 1))\n            # Compute the output matrix\n            output = A * np.sin(B * xarray + C)\n            # Sum over the j and k terms\n            # We have an old version of numpy going here, so we can\'t use\n            # fullsum = np.sum(output, axis=(1, 2))\n            fullsum = np.sum(np.sum(output, axis=2), axis=1)\n\n            # Scale and translate to fit within center and amplitude\n            # (num_terms * input_dim sinusoids of magnitude at most 1 were summed)\n            fullsum *= self.config["amplitude"]\n            fullsum /= num_terms * input_dim\n            fullsum += self.config["center"]\n'
+_ALT_OLD = 'def number_range_alternate(number_type=Number):\n    """\n    Validator function that coerces a list [start, stop] into a dictionary\n    Uses specific type number_type\n    """\n    def validatorfunc(config_as_list):\n        alternate_form = Schema(All(\n            [number_type, number_type],\n            Length(min=2, max=2)\n        ))\n        config_as_list = alternate_form(config_as_list)\n        return {\'start\': config_as_list[0], \'stop\': config_as_list[1]}\n    return validatorfunc\n\n'
+_ALT_HOISTED_NUMBER = 'RANGE_AS_LIST = Schema(All(\n    [Number, Number],\n    Length(min=2, max=2)\n))\n\ndef number_range_alternate(number_type=Number):\n    """\n    Validator function that coerces a list [start, stop] into a dictionary\n    Uses specific type number_type\n    """\n    def validatorfunc(config_as_list):\n        config_as_list = RANGE_AS_LIST(config_as_list)\n        return {\'start\': config_as_list[0], \'stop\': config_as_list[1]}\n    return validatorfunc\n\n'
+_ALT_HELPER = 'def _range_as_list(number_type):\n    return Schema(All([number_type, number_type], Length(min=2, max=2)))\n\ndef number_range_alternate(number_type=Number):\n    """\n    Validator function that coerces a list [start, stop] into a dictionary\n    Uses specific type number_type\n    """\n    alternate_form = _range_as_list(number_type)\n    def validatorfunc(config_as_list):\n        checked = alternate_form(config_as_list)\n        return {\'start\': checked[0], \'stop\': checked[1]}\n    return validatorfunc\n\n'
 _LOOP_HEAD = "        loops = 0\n        while loops < 100:\n            loops += 1\n"
 
 _TRI_OLD = "        if self.config['triangular'] == 'upper':\n            return np.triu(array)\n        elif self.config['triangular'] == 'lower':\n            return np.tril(array)\n        return array\n\n\n"
@@ -789,6 +910,11 @@ MUTANTS = [
     Mutant('int-truncated-uniform-misses-stop', SAMPLING, "return np.random.randint(low=self.config['start'], high=self.config['stop'] + 1)",
            "start, stop = self.config['start'], self.config['stop']\n        return start + int((stop - start) * np.random.random_sample())", 'D1',
            note='random_sample() < 1: the upper endpoint is never drawn'),
+    Mutant('list-spelling-ignores-number-type', VALID, _ALT_OLD, _ALT_HOISTED_NUMBER, 'D1',
+           note='IntegerRange([1.5, 3.5]) accepted; randint truncates'),
+    Mutant('integer-range-validated-as-number', SAMPLING, "schema_config = NumberRange(int)", "schema_config = NumberRange()", 'D1'),
+    Mutant('square-shape-option-accepted-then-overwritten', MATRIX, "        Required('shape', default=None): None,\n        Required('dimension'", "        Required('dimension'", 'D3',
+           note='SquareMatrices(shape=(3,3)) is accepted and draws dimension x dimension'),
     Mutant('int-low-plus-one', SAMPLING, "low=self.config['start'],", "low=self.config['start'] + 1,", 'D1'),
     Mutant('int-swap-removed', SAMPLING, _INT_CTOR, "        super(IntegerRange, self).__init__(config, **kwargs)\n", 'D1'),
     Mutant('int-swap-inverted', SAMPLING, "super(IntegerRange, self).__init__(config, **kwargs)\n        if self.config['start'] > self.config['stop']:",
@@ -903,6 +1029,7 @@ BENIGN = [
     Benign('det-one-threshold-retry-dropped', MATRIX, "            if np.abs(det) < 5e-13:\n                raise Retry()  # pragma: no cover\n", ""),
     Benign('swap-when-equal-too', SAMPLING, "super(IntegerRange, self).__init__(config, **kwargs)\n        if self.config['start'] > self.config['stop']:", "super(IntegerRange, self).__init__(config, **kwargs)\n        if self.config['start'] >= self.config['stop']:"),
     Benign('imaginary-part-subtracted', MATRIX, "array = array + 1j*imarray", "array = array - 1j*imarray"),
+    Benign('list-spelling-schema-built-by-a-helper', VALID, _ALT_OLD, _ALT_HELPER),
     Benign('randint-positional', SAMPLING, "np.random.randint(low=self.config['start'], high=self.config['stop'] + 1)", "np.random.randint(self.config['start'], 1 + self.config['stop'])"),
     Benign('rf-divisor-reordered', SAMPLING, '/ (num_terms * input_dim)', '/ input_dim / num_terms'),
     Benign('rf-scale-first', SAMPLING, 'fullsum = fullsum * self.config["amplitude"] / (num_terms * input_dim)', 'fullsum = self.config["amplitude"] / (input_dim * num_terms) * fullsum'),
